@@ -1138,8 +1138,6 @@ package mqtt
 // connection or registers the client)
 // verif:func mqtt.Server.readConnectionPacket trusted modifies=all
 //@ ensures cl.nsent == old(cl.nsent) && cl.connacked == old(cl.connacked) && cl.registered == old(cl.registered) && cl.authok == old(cl.authok) && nwillsent == old(nwillsent)
-// verif:func mqtt.Client.ParseConnect trusted modifies=all
-//@ ensures cl.nsent == old(cl.nsent) && cl.connacked == old(cl.connacked) && cl.registered == old(cl.registered) && cl.authok == old(cl.authok) && nwillsent == old(nwillsent)
 // verif:func mqtt.Server.validateConnect trusted pure
 // verif:func mqtt.Hooks.OnConnect trusted pure
 // verif:func mqtt.Hooks.OnSessionEstablish trusted pure
@@ -1148,8 +1146,6 @@ package mqtt
 // verif:func mqtt.Client.IsTakenOver trusted pure
 //@ ensures r0 == cl.State.isTakenOver.abool
 // the will message of a connection: every call of sendLWT is counted (ghost)
-// verif:func mqtt.Server.sendLWT trusted modifies=all
-//@ ensures nwillsent == old(nwillsent) + 1
 // verif:func mqtt.Server.attachClient modifies=all
 //@ requires cl != nil && s != nil && cl.nsent == 0 && !cl.connacked && !cl.registered && !cl.authok
 // C13: the client is entered into the registry (where publishers find it) only once its CONNACK has been attempted, only if an
@@ -1180,3 +1176,33 @@ package mqtt
 // verif:loop mqtt.Server.clearExpiredClients 1
 //@ invariant s.Clients != nil && s.Options != nil && s.Options.Capabilities != nil && s.hooks != nil
 //@ invariant rangemap1 != s.Clients.internal && (forall k string :: has(rangemap1, k) ==> rangemap1[k] != nil && rangemap1[k].State.Inflight != nil && rangemap1[k].State.Subscriptions != nil)
+
+// ======================================================================================
+// Will messages (C16, C17)
+// ======================================================================================
+// assumption A-hooks: will hooks return the will with the same topic, payload, QoS, retain flag and delay
+// verif:func mqtt.Hooks.OnWill trusted pure
+//@ ensures r0 == will
+// verif:func mqtt.Hooks.OnWillSent trusted pure
+// verif:ext xid.New pure
+// verif:ext xid.ID.String pure
+// verif:func mqtt.NewOutboundTopicAliases trusted
+//@ ensures r0 != nil && fresh(r0)
+// the will a CONNECT asks for, as the session keeps it (C16): its topic, payload, QoS and retain flag; its delay never
+// exceeds the session expiry interval (absent = 0), because the will is due when the session ends at the latest
+// verif:func mqtt.Client.ParseConnect modifies=all
+//@ requires cl != nil && cl.ops != nil && cl.ops.options != nil && cl.ops.options.Capabilities != nil && cl.ops.log != nil && cl.State.Inflight != nil
+//@ ensures connection-untouched: cl.nsent == old(cl.nsent) && cl.connacked == old(cl.connacked) && cl.registered == old(cl.registered) && cl.authok == old(cl.authok) && nwillsent == old(nwillsent)
+//@ ensures C16-the-will-is-kept-as-requested: pk.Connect.WillFlag ==> cl.Properties.Will.Flag == 1 && cl.Properties.Will.TopicName == pk.Connect.WillTopic && cl.Properties.Will.Payload == pk.Connect.WillPayload && cl.Properties.Will.Qos == pk.Connect.WillQos && (cl.Properties.Will.Retain <==> pk.Connect.WillRetain)
+//@ ensures C16-will-delay-never-exceeds-the-session-expiry: pk.Connect.WillFlag ==> cl.Properties.Will.WillDelayInterval == (pk.Properties.SessionExpiryInterval < pk.Connect.WillProperties.WillDelayInterval ? pk.Properties.SessionExpiryInterval : pk.Connect.WillProperties.WillDelayInterval)
+//@ ensures C16-no-will-requested-none-kept: !pk.Connect.WillFlag ==> cl.Properties.Will.Flag == old(cl.Properties.Will.Flag)
+
+// verif:def wd(s *Server) map = s.loop.willDelayed.internal
+// verif:func mqtt.Server.sendLWT modifies=all
+//@ requires cl != nil && s.hooks != nil && s.loop != nil && s.loop.willDelayed != nil && s.loop.willDelayed.internal != nil && s.Options != nil && s.Options.Capabilities != nil && s.Info != nil && retainOK(s)
+//@ axiom nwillsent == old(nwillsent) + 1
+//@ ensures C16-no-will-nothing-published: old(cl.Properties.Will.Flag) == 0 ==> nrouted == old(nrouted) && nretain == old(nretain) && (forall k string :: (has(wd(s), k) <==> old(has(wd(s), k))))
+//@ ensures C16-will-published-once-as-requested: old(cl.Properties.Will.Flag) != 0 && old(cl.Properties.Will.WillDelayInterval) == 0 ==> nrouted == old(nrouted) + 1 && routedpk[old(nrouted)].TopicName == old(cl.Properties.Will.TopicName) && routedpk[old(nrouted)].Payload == old(cl.Properties.Will.Payload) && routedpk[old(nrouted)].FixedHeader.Qos == old(cl.Properties.Will.Qos) && (routedpk[old(nrouted)].FixedHeader.Retain <==> old(cl.Properties.Will.Retain)) && routedpk[old(nrouted)].FixedHeader.Type == Publish && cl.Properties.Will.Flag == 0
+//@ ensures C16-retained-will-reaches-the-retained-store: old(cl.Properties.Will.Flag) != 0 && old(cl.Properties.Will.WillDelayInterval) == 0 && old(cl.Properties.Will.Retain) && s.Options.Capabilities.RetainAvailable != 0 ==> nretain == old(nretain) + 1
+//@ ensures C16-delayed-will-waits-for-its-delay: old(cl.Properties.Will.Flag) != 0 && old(cl.Properties.Will.WillDelayInterval) > 0 ==> nrouted == old(nrouted) && nretain == old(nretain) && has(wd(s), cl.ID) && wd(s)[cl.ID].TopicName == old(cl.Properties.Will.TopicName) && wd(s)[cl.ID].Expiry == unixOf(lastNow) + int64(old(cl.Properties.Will.WillDelayInterval))
+//@ ensures C17-will-needs-write-permission: !aclOK(cl, old(cl.Properties.Will.TopicName), true) ==> nrouted == old(nrouted) && nretain == old(nretain)
